@@ -6,9 +6,11 @@ package checks
 // documented built-ins compute what the Go function they expose computes.
 
 import (
+	"bytes"
 	"encoding/json"
 	"fmt"
 	"html"
+	"io"
 	"net/url"
 	"reflect"
 	"strconv"
@@ -46,6 +48,9 @@ type c14Callable struct {
 
 // c14Name is a defined string type: a string argument has the same kind but must still be converted
 type c14Name string
+
+// c14Any is an empty interface type with a name
+type c14Any interface{}
 
 var c14Callables = []c14Callable{
 	// (indices are part of saved cases: append only)
@@ -116,6 +121,15 @@ func c14Vars(log *[]string, jfName string) jet.VarMap {
 		Funcs map[string]func(a, b, c string) string
 	}{map[string]func(a, b, c string) string{"three": func(a, b, c string) string { return r.note(`tools.Funcs["three"]`, a, b, c) }}})
 	vars.Set("id", func(x interface{}) interface{} { return x })
+	// the same with a result type that is an empty interface with a name of its own (database/sql/driver.Value is one)
+	vars.Set("idn", func(x interface{}) c14Any { return x })
+	// a plain Go function that happens to take a writer and bytes (not a jet.SafeWriter): called like any function
+	sink := new(bytes.Buffer)
+	vars.Set("sink", sink)
+	vars.Set("tee", func(w io.Writer, b []byte) { w.Write(bytes.ToUpper(b)) })
+	vars.Set("sinkText", func() string { return sink.String() })
+	// a parameter of an interface type that has methods
+	vars.Set("fs1", func(s fmt.Stringer) string { return r.note("fs1", s.String()) })
 	ticks := 0
 	vars.Set("tick", func() string { ticks++; return fmt.Sprintf("k%d", ticks) })
 	vars.Set("kname", c14Name("named"))
@@ -232,7 +246,10 @@ type c14Case struct {
 
 func c14GenArg(t *rapid.T, kind byte, label string) c14Arg {
 	if kind == 'S' {
-		switch rapid.IntRange(0, 3).Draw(t, label+"S") {
+		switch rapid.IntRange(0, 4).Draw(t, label+"S") {
+		case 4: // ... through a function whose result type is a named empty interface
+			s := rapid.SampledFrom([]string{"a", "bc", ""}).Draw(t, label+"idnlit")
+			return c14Arg{Src: "idn(" + strconv.Quote(s) + ")", S: s}
 		case 3: // handed through a function declared to return interface{}: the value inside is the argument
 			s := rapid.SampledFrom([]string{"a", "bc", ""}).Draw(t, label+"idlit")
 			return c14Arg{Src: "id(" + strconv.Quote(s) + ")", S: s}
@@ -243,7 +260,9 @@ func c14GenArg(t *rapid.T, kind byte, label string) c14Arg {
 			return c14Arg{Src: strconv.Quote(s), S: s}
 		}
 	}
-	switch rapid.IntRange(0, 3).Draw(t, label+"I") {
+	switch rapid.IntRange(0, 4).Draw(t, label+"I") {
+	case 4:
+		return c14Arg{Src: "idn(iv)", I: 7, IsI: true}
 	case 3:
 		return c14Arg{Src: "id(iv)", I: 7, IsI: true}
 	case 0:
@@ -272,6 +291,7 @@ func genC14(t *rapid.T) c14Case {
 			// functions that are nil; arguments that only look convertible
 			`{{ nilfn("a") }}`, `{{ "a" | nilfn }}`, `{{ nilfn: "a" }}`, `{{ fholder.F("a") }}`, `{{ "a" | fholder.F }}`, `{{ niljf("a") }}`,
 			`{{ arr4(xsl) }}`, `{{ xsl | arr4 }}`, `{{ arr2v(xsl) }}`,
+			`{{ fs1("a") }}`, `{{ "a" | fs1 }}`, `{{ fs1: iv }}`, `{{ fs1(mm) }}`,
 			`{{ fstr("a", "b") }}`, `{{ fstr("a", strg, 1) }}`, `{{ fstr: "a", iv }}`, `{{ "x" | fstr("a", _) }}`, `{{ sv | fstr: "a" }}`, `{{ ferr("a", "b") }}`, `{{ ferr("a", strg) }}`, `{{ iv | ferr("a", _) }}`, `{{ ferr: "a", mm }}`,
 			// built-ins handed values of the wrong kind (also where treating them as 0 would give a valid range)
 			`{{ range ints("2", 5) }}x{{ end }}`, `{{ range ints(-2, "x") }}x{{ end }}`, `{{ range ints(true, 3) }}x{{ end }}`, `{{ range "1" | ints: 4 }}x{{ end }}`, `{{ range ints(sv, iv) }}x{{ end }}`,
@@ -471,7 +491,7 @@ func (c c14Case) apply() (string, []string) {
 				}
 				a := st.Args[k]
 				switch {
-				case a.IsI && (a.Src == "iv" || a.Src == "id(iv)"):
+				case a.IsI && (a.Src == "iv" || a.Src == "id(iv)" || a.Src == "idn(iv)"):
 					raw = append(raw, a.I)
 				case a.IsI:
 					raw = append(raw, float64(a.I))
@@ -585,6 +605,8 @@ func genC14Builtin(t *rapid.T) c14Case {
 		// arguments that are not strings but convert to the parameter type
 		{"{{ pf64(big, bigneg) }}|{{ rf64(big, bigneg) }}", "pf64(9007199254740993,-4611686018427387907)|rf64(9007199254740993,-4611686018427387907)"},
 		{"{{ big | pf64: iv }}|{{ bigneg | pf64(big, _) }}", "pf64(9007199254740993,7)|pf64(9007199254740993,-4611686018427387907)"},
+		{"{{ tee(sink, bv) }}[{{ sinkText() }}]", "[  BY TES  ]"}, {"{{ tee: sink, bv }}[{{ sinkText() }}]", "[  BY TES  ]"}, {"{{ sink | tee: bv }}[{{ sinkText() }}]", "[  BY TES  ]"}, {"{{ bv | tee(sink, _) }}[{{ sinkText() }}]", "[  BY TES  ]"},
+		{"{{ fs1(strg) }}|{{ strg | fs1 }}", "fs1(string:stringer)|fs1(string:stringer)"},
 		{"{{ trimSpace(bv) }}", "By Tes"}, {"{{ bv | upper }}", "  BY TES  "}, {"{{ lower: bv }}", "  by tes  "}, {"{{ hasPrefix(bv, \"  By\") }}", "true"},
 		{"{{ json(" + q(s) + ") | upper }}", esc(strings.ToUpper(js(s)))},
 		{"{{ " + q(s) + " | upper }}", esc(strings.ToUpper(s))},
@@ -640,7 +662,7 @@ func judgeC14Builtin(c c14Case) (v core.Verdict) {
 
 func TestC14(t *testing.T) {
 	core.Run(t, "C14",
-		"abstract call chains (base value, 1-4 stages over reflected Go functions of arity 1-3, a variadic one, one needing int conversion, arguments handed through a function declared to return interface{}, value and pointer methods (two with non-ASCII names) and a jet.Func; piped value at any string position; extra arguments literal or variable, numeric literals converted to int, variadic tails of 0-3) printed in every surface form (nested plain calls, prefix colon, x | f, x | f: a, x | f(a), slots x | f(a, _) and x | f: a, _), all forms compared with the directly applied chain: rendered bytes and a call log showing each stage once, left to right; jet.Func vs reflected variadic twin receive the same arguments; misuse shapes that must be errors incl. nil functions, arguments that only look convertible, placeholders without a piped value for jet.Funcs, variadic tails of non-empty interface types handed values that do not implement them; 24 built-in templates over generated inputs compared with the Go function the docs name; also: functions taken out of a map or a struct's map as call targets (fns[\"two\"], tools.Funcs[\"three\"], a jet.Func in a map) in every call form; integers beyond 2^53 read through Arguments.ParseInto; a placeholder without a pipe where the call is part of an expression / assignment / condition; non-trivial = >=2 stages, a slot at position >=1, or a numeric conversion",
+		"abstract call chains (base value, 1-4 stages over reflected Go functions of arity 1-3, a variadic one, one needing int conversion, arguments handed through a function declared to return interface{}, value and pointer methods (two with non-ASCII names) and a jet.Func; piped value at any string position; extra arguments literal or variable, numeric literals converted to int, variadic tails of 0-3) printed in every surface form (nested plain calls, prefix colon, x | f, x | f: a, x | f(a), slots x | f(a, _) and x | f: a, _), all forms compared with the directly applied chain: rendered bytes and a call log showing each stage once, left to right; jet.Func vs reflected variadic twin receive the same arguments; misuse shapes that must be errors incl. nil functions, arguments that only look convertible, placeholders without a piped value for jet.Funcs, variadic tails of non-empty interface types handed values that do not implement them; 24 built-in templates over generated inputs compared with the Go function the docs name; also: functions taken out of a map or a struct's map as call targets (fns[\"two\"], tools.Funcs[\"three\"], a jet.Func in a map) in every call form; integers beyond 2^53 read through Arguments.ParseInto; a placeholder without a pipe where the call is part of an expression / assignment / condition; round 10: results of a named empty interface type as arguments; a plain func(io.Writer, []byte) that is not a SafeWriter; a parameter of an interface type with methods (right and wrong arguments); non-trivial = >=2 stages, a slot at position >=1, or a numeric conversion",
 		genC14, judgeC14)
 }
 
